@@ -12,7 +12,11 @@ import (
 // (LockSelftest.v) so that Coq's checker is tested on the same bodies on every run.
 
 const stTtlcode = `package ttlcode
-import "sync"
+import (
+	"sort"
+	"sync"
+)
+var _ = sort.Ints
 type CodeStore struct {
 	sync.Mutex
 	store map[string]int
@@ -90,6 +94,17 @@ func (c *CodeStore) DeferredClosureUnlocks() {
 	c.store["a"] = 2
 }
 func NewStore() *CodeStore { c := &CodeStore{}; c.store = map[string]int{}; return c }
+func (c *CodeStore) SubmitIf(k string, cond func() bool) string {
+	c.Lock()
+	defer c.Unlock()
+	if !cond() { return "" }
+	c.store[k] = 1
+	return k
+}
+func (c *CodeStore) PassesCallbackOn(f func() bool) string { return c.SubmitIf("a", f) }
+func each(f func()) { f() }
+func (c *CodeStore) ResolvedCallbackUnderLock() { c.Lock(); each(func() { c.store["a"] = 1 }); c.Unlock() }
+func (c *CodeStore) ResolvedCallbackNoLock() { each(func() { c.store["a"] = 1 }) }
 `
 
 const stDeny = `package deny
@@ -104,6 +119,45 @@ func (s *Store) prune() { for k := range s.DenyList { delete(s.AllowList, k) } }
 func (s *Store) BadPrune() { s.prune2() }
 func (s *Store) prune2() { delete(s.DenyList, "x") }
 func (s *Store) WrongInstance(o *Store) { s.Lock(); o.DenyList["a"] = 1; s.Unlock() }
+func (s *Store) Check(id string) bool { s.Lock(); defer s.Unlock(); _, ok := s.DenyList[id]; return !ok }
+func (s *Store) DenyThen(id string, then func()) { s.Lock(); s.DenyList[id] = 1; then(); s.Unlock() }
+func (s *Store) CallbackUnlocked(then func()) { s.Lock(); s.DenyList["a"] = 1; s.Unlock(); then() }
+`
+
+const stAccess = `package access
+import (
+	"example.org/selftest/internal/deny"
+	"example.org/selftest/internal/ttlcode"
+)
+type Config struct { CodeStore *ttlcode.CodeStore; DenyStore *deny.Store }
+func sessionNested(config Config) func(string) string {
+	return func(bid string) string {
+		return config.CodeStore.SubmitIf(bid, func() bool { return config.DenyStore.Check(bid) })
+	}
+}
+func denyNested(config Config) func(string) {
+	return func(bid string) { config.DenyStore.DenyThen(bid, func() { config.CodeStore.Locked(bid) }) }
+}
+func methodValueNested(config Config) func() {
+	return func() { config.DenyStore.DenyThen("a", config.CodeStore.Inner) }
+}
+func sequential(config Config) func(string) {
+	return func(bid string) { if config.DenyStore.Check(bid) { config.CodeStore.Locked(bid) } }
+}
+func harmlessCallback(config Config) func() {
+	return func() { n := 0; config.DenyStore.DenyThen("a", func() { n++ }) }
+}
+func callbackAfterUnlock(config Config) func() {
+	return func() { config.DenyStore.CallbackUnlocked(func() { config.CodeStore.Locked("a") }) }
+}
+func API(config Config) []interface{} {
+	return []interface{}{sessionNested(config), denyNested(config), methodValueNested(config), sequential(config), harmlessCallback(config), callbackAfterUnlock(config)}
+}
+`
+
+const stRelay = `package relay
+import "example.org/selftest/internal/deny"
+func Run(ds *deny.Store) { go func() { for { ds.Prune() } }() }
 `
 
 const stChanmap = `package chanmap
@@ -221,63 +275,94 @@ func (h *Hub) drop(c *Client) {
 	h.mu.Unlock()
 }
 func Start(h *Hub) { go h.run() }
+func newClient(h *Hub) *Client { c := &Client{hub: h}; c.topic = "t"; return c }
+func newClientPublishing(h *Hub) *Client { c := &Client{hub: h}; h.unregister <- c; return c }
+func BuildThenPublish(h *Hub) { c := newClient(h); c.stats = &Stats{}; h.unregister <- c }
+func PublishThenWrite(h *Hub) { c := newClient(h); h.unregister <- c; c.stats = &Stats{} }
+func WriteAfterPublishingConstructor(h *Hub) { c := newClientPublishing(h); c.topic = "x" }
+func (c *Client) SetTopic(t string) { c.topic = t }
+func PublishInLoop(h *Hub) { c := &Client{}; for i := 0; i < 2; i++ { c.topic = "a"; h.unregister <- c } }
+func CapturedThenWritten(h *Hub) { c := &Client{}; go func() { _ = c.topic }(); c.topic = "x" }
 `
 
 type stExpect struct{ wl, nb, lo bool }
 
 // expected verdicts: well_locked, no_block_while_locked, lock_order_ok (the latter two imply the first)
 var stWant = map[string]stExpect{
-	"ttlcode.CodeStore.Locked":                   {true, true, true},
-	"ttlcode.CodeStore.UnlockedRead":             {false, false, false},
-	"ttlcode.CodeStore.UnlockedWrite":            {false, false, false},
-	"ttlcode.CodeStore.DeferUnlock":              {true, true, true},
-	"ttlcode.CodeStore.ReturnReadsUnderDefer":    {true, true, true},
-	"ttlcode.CodeStore.EarlyReturnNoUnlock":      {false, false, false},
-	"ttlcode.CodeStore.DoubleAcquire":            {false, false, false},
-	"ttlcode.CodeStore.UnlockThenRead":           {false, false, false},
-	"ttlcode.CodeStore.ConditionalUnlock":        {false, false, false},
-	"ttlcode.CodeStore.GoroutineLiteral":         {true, true, true},
-	"ttlcode.CodeStore.GoroutineLiteral$1":       {false, false, false},
-	"ttlcode.CodeStore.GoroutineLiteralLocked":   {true, true, true},
-	"ttlcode.CodeStore.GoroutineLiteralLocked$1": {true, true, true},
-	"ttlcode.CodeStore.BreakHoldingLock":         {false, false, false},
-	"ttlcode.CodeStore.BreakAfterUnlock":         {true, true, true},
-	"ttlcode.CodeStore.ContinueHoldingLock":      {false, false, false},
-	"ttlcode.CodeStore.RangeDelete":              {true, true, true},
-	"ttlcode.CodeStore.RangeUnlocked":            {false, false, false},
-	"ttlcode.CodeStore.Inner":                    {true, true, true},
-	"ttlcode.CodeStore.OuterCallsInnerLocked":    {false, false, false},
-	"ttlcode.CodeStore.OuterCallsInner":          {true, true, true},
-	"ttlcode.CodeStore.SwitchReturns":            {true, true, true},
-	"ttlcode.CodeStore.SwitchForgetsUnlock":      {false, false, false},
-	"ttlcode.CodeStore.DeferredClosureUnlocks":   {true, true, true},
-	"ttlcode.NewStore":                           {true, true, true},
-	"deny.Store.Prune":                           {true, true, true},
-	"deny.Store.BadPrune":                        {false, false, false},
-	"deny.Store.WrongInstance":                   {false, false, false},
-	"chanmap.Store.AliasLocked":                  {true, true, true},
-	"chanmap.Store.AliasUsedAfterUnlock":         {false, false, false},
-	"chanmap.Store.CloseChildren":                {true, true, true},
-	"crossbar.Hub.RLockRead":                     {true, true, true},
-	"crossbar.Hub.RLockThenWrite":                {false, false, false},
-	"crossbar.Hub.InnerMapWrite":                 {true, true, true},
-	"crossbar.Hub.InnerMapWriteShared":           {false, false, false},
-	"crossbar.Hub.SelectDefaultSend":             {true, true, true},
-	"crossbar.Hub.BlockingSendWhileLocked":       {true, false, true},
-	"crossbar.Hub.BlockingSelectWhileLocked":     {true, false, true},
-	"crossbar.Hub.BlockingSendUnlocked":          {true, true, true},
-	"crossbar.Hub.NestedInOrder":                 {true, true, true},
-	"crossbar.Client.NestedOutOfOrder":           {true, true, false},
-	"crossbar.Client.TwoFramesNested":            {true, true, false},
-	"crossbar.Client.MutatingMethodUnderRLock":   {false, false, false},
-	"crossbar.Client.MutatingMethodUnderLock":    {true, true, true},
-	"crossbar.Client.ReadMethodUnderRLock":       {true, true, true},
-	"crossbar.Client.WrongFrames":                {false, false, false},
-	"crossbar.Client.WrongClient":                {false, false, false},
-	"crossbar.Hub.CrossPackageAfterUnlock":       {true, true, true},
-	"crossbar.Hub.CrossPackageWhileLocked":       {true, true, false},
-	"crossbar.Hub.run":                           {true, true, true},
-	"crossbar.Start":                             {true, true, true},
+	"ttlcode.CodeStore.Locked":                    {true, true, true},
+	"ttlcode.CodeStore.UnlockedRead":              {false, false, false},
+	"ttlcode.CodeStore.UnlockedWrite":             {false, false, false},
+	"ttlcode.CodeStore.DeferUnlock":               {true, true, true},
+	"ttlcode.CodeStore.ReturnReadsUnderDefer":     {true, true, true},
+	"ttlcode.CodeStore.EarlyReturnNoUnlock":       {false, false, false},
+	"ttlcode.CodeStore.DoubleAcquire":             {false, false, false},
+	"ttlcode.CodeStore.UnlockThenRead":            {false, false, false},
+	"ttlcode.CodeStore.ConditionalUnlock":         {false, false, false},
+	"ttlcode.CodeStore.GoroutineLiteral":          {true, true, true},
+	"ttlcode.CodeStore.GoroutineLiteral$1":        {false, false, false},
+	"ttlcode.CodeStore.GoroutineLiteralLocked":    {true, true, true},
+	"ttlcode.CodeStore.GoroutineLiteralLocked$1":  {true, true, true},
+	"ttlcode.CodeStore.BreakHoldingLock":          {false, false, false},
+	"ttlcode.CodeStore.BreakAfterUnlock":          {true, true, true},
+	"ttlcode.CodeStore.ContinueHoldingLock":       {false, false, false},
+	"ttlcode.CodeStore.RangeDelete":               {true, true, true},
+	"ttlcode.CodeStore.RangeUnlocked":             {false, false, false},
+	"ttlcode.CodeStore.Inner":                     {true, true, true},
+	"ttlcode.CodeStore.OuterCallsInnerLocked":     {false, false, false},
+	"ttlcode.CodeStore.OuterCallsInner":           {true, true, true},
+	"ttlcode.CodeStore.SwitchReturns":             {true, true, true},
+	"ttlcode.CodeStore.SwitchForgetsUnlock":       {false, false, false},
+	"ttlcode.CodeStore.DeferredClosureUnlocks":    {true, true, true},
+	"ttlcode.NewStore":                            {true, true, true},
+	"deny.Store.Prune":                            {true, true, true},
+	"deny.Store.BadPrune":                         {false, false, false},
+	"deny.Store.WrongInstance":                    {false, false, false},
+	"chanmap.Store.AliasLocked":                   {true, true, true},
+	"chanmap.Store.AliasUsedAfterUnlock":          {false, false, false},
+	"chanmap.Store.CloseChildren":                 {true, true, true},
+	"crossbar.Hub.RLockRead":                      {true, true, true},
+	"crossbar.Hub.RLockThenWrite":                 {false, false, false},
+	"crossbar.Hub.InnerMapWrite":                  {true, true, true},
+	"crossbar.Hub.InnerMapWriteShared":            {false, false, false},
+	"crossbar.Hub.SelectDefaultSend":              {true, true, true},
+	"crossbar.Hub.BlockingSendWhileLocked":        {true, false, true},
+	"crossbar.Hub.BlockingSelectWhileLocked":      {true, false, true},
+	"crossbar.Hub.BlockingSendUnlocked":           {true, true, true},
+	"crossbar.Hub.NestedInOrder":                  {true, true, true},
+	"crossbar.Client.NestedOutOfOrder":            {true, true, false},
+	"crossbar.Client.TwoFramesNested":             {true, true, false},
+	"crossbar.Client.MutatingMethodUnderRLock":    {false, false, false},
+	"crossbar.Client.MutatingMethodUnderLock":     {true, true, true},
+	"crossbar.Client.ReadMethodUnderRLock":        {true, true, true},
+	"crossbar.Client.WrongFrames":                 {false, false, false},
+	"crossbar.Client.WrongClient":                 {false, false, false},
+	"crossbar.Hub.CrossPackageAfterUnlock":        {true, true, true},
+	"crossbar.Hub.CrossPackageWhileLocked":        {true, true, false},
+	"crossbar.Hub.run":                            {true, true, true},
+	"crossbar.Start":                              {true, true, true},
+	"ttlcode.CodeStore.SubmitIf":                  {true, true, true},
+	"ttlcode.CodeStore.PassesCallbackOn":          {true, true, true},
+	"ttlcode.CodeStore.ResolvedCallbackUnderLock": {true, true, true},
+	"ttlcode.CodeStore.ResolvedCallbackNoLock":    {false, false, false},
+	"deny.Store.Check":                            {true, true, true},
+	"deny.Store.DenyThen":                         {true, true, true},
+	"deny.Store.CallbackUnlocked":                 {true, true, true},
+	"access.API":                                  {true, true, true},
+	"access.sessionNested$1":                      {true, true, false},
+	"access.denyNested$1":                         {true, true, false},
+	"access.methodValueNested$1":                  {true, true, false},
+	"access.sequential$1":                         {true, true, true},
+	"access.harmlessCallback$1":                   {true, true, true},
+	"access.callbackAfterUnlock$1":                {true, true, true},
+	"relay.Run":                                   {true, true, true},
+	"relay.Run$1":                                 {true, true, true},
+	"crossbar.BuildThenPublish":                   {true, true, true},
+	"crossbar.PublishThenWrite":                   {false, false, false},
+	"crossbar.WriteAfterPublishingConstructor":    {false, false, false},
+	"crossbar.Client.SetTopic":                    {false, false, false},
+	"crossbar.PublishInLoop":                      {false, false, false},
+	"crossbar.CapturedThenWritten":                {false, false, false},
+	"crossbar.CapturedThenWritten$1":              {true, true, true},
 }
 
 // exact IR of a few corpus functions: guards against a translation that passes by producing nothing
@@ -291,10 +376,13 @@ var stShape = map[string]string{
 	"crossbar.Hub.BlockingSelectWhileLocked": "Lock h:Hub.mu; Choice{Block h.unregister | Block done}; Unlock h:Hub.mu",
 	"crossbar.Hub.run":                       "Loop{Block h.unregister; Lock h:Hub.mu; Rd h:Hub.clients; Choice{Wr h:Hub.clients | Skip}; Unlock h:Hub.mu}",
 	"crossbar.Client.WrongClient":            "Lock c.stats.tx:Frames.mu; Wr o.stats.tx:Frames.last; Unlock c.stats.tx:Frames.mu",
+	"access.denyNested$1":                    "Lock config.DenyStore:deny.Store.Mutex; Wr config.DenyStore:deny.Store.DenyList; Lock config.CodeStore:CodeStore.Mutex; Wr config.CodeStore:CodeStore.store; Unlock config.CodeStore:CodeStore.Mutex; Unlock config.DenyStore:deny.Store.Mutex",
+	"deny.Store.DenyThen":                    "Lock s:deny.Store.Mutex; Wr s:deny.Store.DenyList; Unlock s:deny.Store.Mutex",
+	"crossbar.PublishThenWrite":              "Block h.unregister; Wr c:Client.stats (after publication)",
 }
 
 // helpers that must NOT become entries (they are inlined)
-var stHelpers = []string{"deny.Store.prune", "deny.Store.prune2", "crossbar.Hub.drop"}
+var stHelpers = []string{"deny.Store.prune", "deny.Store.prune2", "crossbar.Hub.drop", "crossbar.newClient", "access.sessionNested"}
 
 // constructs the translator must refuse (fail closed), each added to package ttlcode on its own
 var stRefuse = []struct{ name, src, want string }{
@@ -321,10 +409,13 @@ func (c *CodeStore) X(b *box) { c.Lock(); b.m = c.store; c.Unlock() }`, "is stor
 	{"whole-struct-overwrite", `func (c *CodeStore) X() { *c = CodeStore{} }`, "whole CodeStore is overwritten"},
 	{"deferred-call-reads-guarded", `func show(n int) {}
 func (c *CodeStore) X() { c.Lock(); defer show(len(c.store)); c.Unlock() }`, "deferred call whose arguments"},
-	{"callback-under-lock", `func each(f func()) { f() }
-func (c *CodeStore) X() { c.Lock(); each(func() { c.store["a"] = 1 }); c.Unlock() }`, "call order unknown"},
+	{"callback-under-lock", `func (c *CodeStore) X(xs []int) { c.Lock(); sort.Slice(xs, func(i, j int) bool { return c.store["a"] > 0 }); c.Unlock() }`, "call order unknown"},
 	{"unknown-mutex", `type other struct{ mu interface{ Lock(); Unlock() } }
 func (c *CodeStore) X(o *other) { o.mu.Lock(); c.store["a"] = 1; o.mu.Unlock() }`, "unknown lock"},
+	{"callback-unresolvable", `func (c *CodeStore) X() { var g func() bool; c.SubmitIf("a", g) }`, "cannot be resolved"},
+	{"callback-function-as-value", `func (c *CodeStore) X() { f := c.SubmitIf; _ = f }`, "used as a function value"},
+	{"relay:guarded-map-logged", `func show(m map[string]interface{}) {}
+func Log(ds *deny.Store) { ds.Prune(); show(map[string]interface{}{"allow": ds.AllowList, "deny": ds.DenyList}) }`, "is stored in a composite literal"},
 	{"fallthrough", `func (c *CodeStore) X(n int) { c.Lock(); switch n { case 0: fallthrough; case 1: }; c.Unlock() }`, "fallthrough"},
 }
 
@@ -334,8 +425,12 @@ func stMem(extra string) map[string][]byte {
 		"internal/deny/a.go":     []byte(stDeny),
 		"internal/chanmap/a.go":  []byte(stChanmap),
 		"internal/crossbar/a.go": []byte(stCrossbar),
+		"internal/access/a.go":   []byte(stAccess),
+		"internal/relay/a.go":    []byte(stRelay),
 	}
-	if extra != "" {
+	if strings.HasPrefix(extra, "relay:") {
+		m["internal/relay/b.go"] = []byte("package relay\nimport \"example.org/selftest/internal/deny\"\n" + strings.TrimPrefix(extra, "relay:") + "\n")
+	} else if extra != "" {
 		m["internal/ttlcode/b.go"] = []byte("package ttlcode\n" + extra + "\n")
 	}
 	return m
@@ -420,7 +515,11 @@ func selftest() (bool, string, string) {
 		coq.WriteString(fmt.Sprintf("Example %s_lo : lock_order_fn %s = %v.\nProof. vm_compute. reflexivity. Qed.\n\n", id, id, want.lo))
 	}
 	for _, r := range stRefuse {
-		t2, _, err := translate("", nil, stMem(r.src))
+		src := r.src
+		if strings.HasPrefix(r.name, "relay:") {
+			src = "relay:" + src
+		}
+		t2, _, err := translate("", nil, stMem(src))
 		if err != nil {
 			bad("refuse/%s: %v", r.name, err)
 			continue
